@@ -20,6 +20,7 @@ import (
 	"fmt"
 	"os"
 	"path/filepath"
+	rtdebug "runtime/debug"
 	"strings"
 	"testing"
 	"time"
@@ -123,6 +124,10 @@ func c07Sessions(e *c07Env) [][]vfPkt {
 			{Type: rfReaddir, ID: n(), Handle: "1"},
 			{Type: rfClose, ID: n(), Handle: "1"},
 			{Type: rfRmdir, ID: n(), Path: e.p("nd")},
+			// OPENDIR of something that is not a directory, OPEN of a directory for writing: refused, nothing may stay open
+			{Type: rfOpendir, ID: n(), Path: e.p("a")},
+			{Type: rfOpen, ID: n(), Path: e.p("d"), Pflags: rfWrite_},
+			{Type: rfOpendir, ID: n(), Path: e.p("b")},
 		},
 		{ // 2: metadata and namespace
 			{Type: rfSetstat, ID: n(), Path: e.p("b"), Attrs: vfAttrs{Flags: rfAttrSize | rfAttrPerm, Size: 4, Perm: 0o640}},
@@ -287,6 +292,11 @@ type c07Ref struct {
 }
 
 func c07Connect(e *c07Env) (*vfRawSession, error) {
+	// no garbage collection between here and the descriptor check in c07After: a file the server forgot to
+	// close must not be rescued by the finalizer of its unreachable *os.File
+	if e.kind == vfOS {
+		rtdebug.SetGCPercent(-1)
+	}
 	cfg := vfSrvCfg{Kind: e.kind, Alloc: e.alloc}
 	if e.kind == vfRS {
 		cfg.H = e.store.Handlers(vfHandlerOpt{OpenFile: true, CmdAll: true, ListAll: true})
@@ -303,6 +313,7 @@ func c07After(u *vfUnit, e *c07Env, base vfGoSet, label string, w map[string]any
 		if fds := vfFDsUnder(e.dir); len(fds) > 0 {
 			u.Violation("fd-leak:Server", fmt.Sprintf("%s: files still open after Serve returned: %v", label, fds), w)
 		}
+		rtdebug.SetGCPercent(100)
 	} else {
 		for _, o := range e.store.Objs() {
 			if o.kind == "stat" {
